@@ -781,7 +781,7 @@ iploop:
 
 		if c.app.config.EnableIPValidation {
 			// Skip validation if IP is clearly not IPv4/IPv6, otherwise validate without allocations
-			if (!v6 && !v4) || (v6 && !utils.IsIPv6(s)) || (v4 && !utils.IsIPv4(s)) {
+			if (!v6 && !v4) || (v6 && !utils.IsIPv6(s)) || (!v6 && v4 && !utils.IsIPv4(s)) {
 				continue iploop
 			}
 		}
@@ -808,7 +808,7 @@ func (c *DefaultCtx) extractIPFromHeader(header string) string {
 			var v4, v6 bool
 
 			// Manually splitting string without allocating slice, working with parts directly
-			i, j = j+1, j+2
+			i, j = j+1, j+1
 
 			if j > len(headerValue) {
 				break
@@ -830,7 +830,7 @@ func (c *DefaultCtx) extractIPFromHeader(header string) string {
 			s := utils.TrimRight(headerValue[i:j], ' ')
 
 			if c.app.config.EnableIPValidation {
-				if (!v6 && !v4) || (v6 && !utils.IsIPv6(s)) || (v4 && !utils.IsIPv4(s)) {
+				if (!v6 && !v4) || (v6 && !utils.IsIPv6(s)) || (!v6 && v4 && !utils.IsIPv4(s)) {
 					continue iploop
 				}
 			}
